@@ -92,6 +92,30 @@ def gen_small(rng, kinds):
     return ",".join(objs), txt
 
 
+def gen_bounded(rng):
+    """sync_channel(1..2): children make blocking sends (endpoints are never dropped, so F5b does not apply), main receives at
+    least as many values as must be taken for every send to complete and observes in between"""
+    cap = rng.choice([1, 1, 2])
+    nchild = rng.choice([1, 2, 2])
+    sends = [rng.randint(1, 2) for _ in range(nchild)]
+    tot = sum(sends)
+    nrecv = rng.randint(max(0, tot - cap), tot)
+    main = ["sp%d" % (i + 1) for i in range(nchild)]
+    for _ in range(nrecv):
+        main.append("rc1")
+        if rng.random() < 0.4:
+            main.append(rng.choice(["tc1", "a0.ld"]))
+    bodies = [main]
+    for i in range(nchild):
+        ops = []
+        for k in range(sends[i]):
+            ops.append("sd1.%d.%d" % (i + 1, 10 * (i + 1) + k))
+            if rng.random() < 0.4:
+                ops.append("a0.add.1")
+        bodies.append(ops)
+    return "a0,c%d,e" % cap, "|".join(";".join(b) if b else "-" for b in bodies)
+
+
 def run(tier):
     # (1) correspondence of the scheduling points: the theorems of Props/C02.v are about the placement of Switch nodes in the
     #     code trees; every program below is run on the real runtime and on the model under the same scripted schedule, and
@@ -117,8 +141,8 @@ def run(tier):
     progs.append(("a0,c0,e", "sp1;a0.ld;ts1.0.5;dt1.0;dt1.1;dt1.2;jn0|a0.st.1;rc1"))
     progs.append(("a0,c1,e", "sp1;a0.ld;ts1.0.5;ts1.0.6;dt1.0;dt1.1;dt1.2;jn0|a0.st.1;rc1;a0.ld;tc1"))
     while len(progs) < n:
-        kinds = rng.choice([[], ["m"], ["w"], ["s"], ["c"], ["o"], ["m", "s"], ["c", "m"], ["o", "m"], ["b"], ["b"]])
-        p = gen_small(rng, kinds)
+        kinds = rng.choice([[], ["m"], ["w"], ["s"], ["c"], ["o"], ["m", "s"], ["c", "m"], ["o", "m"], ["b"], ["b"], ["k"]])
+        p = gen_bounded(rng) if kinds == ["k"] else gen_small(rng, kinds)
         if p:
             progs.append(p)
     cases = ["outcomes 20000 none %s %s" % p for p in progs]
@@ -181,7 +205,7 @@ def run(tier):
                 ctx.violation({"layer": "prog", "cases": [c], "impossible_outcomes": extra[:5],
                                "why": "the runtime produced outcome(s) that no sequentially consistent interleaving allows (specification interpreter tools/spec.py)"})
     ctx.cov["c02_stats"] = stats
-    ctx.cov["rule"] = ctx.cov.get("rule", "") + " EXPLORATION: " + ("small programs (main + 1-2 children, 1-4 operations each over atomics, Mutex, RwLock, unfair semaphores, unbounded channels with endpoint drops, Once, Barrier) ; the real runtime's whole choice tree is enumerated "
+    ctx.cov["rule"] = ctx.cov.get("rule", "") + " EXPLORATION: " + ("small programs (main + 1-2 children, 1-4 operations each over atomics, Mutex, RwLock, unfair semaphores, unbounded channels with endpoint drops, bounded channels, Once, Barrier) ; the real runtime's whole choice tree is enumerated "
                        "with DfsScheduler (complete enumerations only) and the set of outcomes (per-task results + termination) compared with the set computed by an independent interpreter in which every visible operation "
                        "is one atomic step; the same enumeration is made on the extracted model (check_dfs of Lang/Prog.v) and an outcome the model reaches but the runtime does not is a failing input. non-trivial = programs with more than one SC outcome")
     ctx.sample({"case": cases[0], "impl": io[0][:300]})
